@@ -117,6 +117,13 @@ class World:
     LAYOUT = [str, int, float, dict, list, tuple, type(None), bytes, bytearray, set, frozenset, complex]
 
     def __init__(self, width=2, depth=2, extra_classes=()):
+        self.LAYOUT = list(type(self).LAYOUT)
+        try:  # numpy.ndarray has its own C layout: no type is an ndarray and a str/int/dict/... at once
+            import numpy
+
+            self.LAYOUT.append(numpy.ndarray)
+        except ImportError:
+            pass
         self.Ty = z3.DeclareSort("Ty")
         self.width = width
         self.depth = depth
@@ -601,6 +608,11 @@ class Interp:
             if self.is_symbolic(o):
                 raise Unsupported(f"isinstance of {o!r}")
             return isinstance(o, c)
+        if f is builtins.issubclass and len(args) == 2 and isinstance(args[0], SType):
+            c = args[1]
+            if c == () or c is None:
+                return False
+            return SBool(w.isinst(args[0].node.T, c))
         if f is builtins.type and len(args) == 1:
             o = args[0]
             if isinstance(o, SNode):
@@ -623,6 +635,8 @@ class Interp:
             return len(o)
         if f is builtins.list and len(args) == 1 and isinstance(args[0], (SNode, SView)):
             return self.as_view(args[0])
+        if f is builtins.tuple and len(args) == 1 and not self.is_symbolic(args[0]):
+            return tuple(args[0])
         if f in (builtins.str, builtins.repr) and len(args) == 1 and self.is_symbolic(args[0]):
             if isinstance(args[0], SStr) and f is builtins.str:
                 return args[0]
